@@ -456,7 +456,7 @@ set_option maxRecDepth 100000
 def builtMatchB : Bool :=
   (List.range (logicVersion + 1)).all (fun v => decide (cellKeys (buildTables opSpecs v) = built[v]?.getD []))
 
-theorem built_match_all : builtMatchB = true := by decide
+theorem built_match_all : builtMatchB = true := by decide +kernel
 
 /-- FULL (finite, whole table). The tables the real init() built — dumped cell by cell, SubOps included, for every version
     0..LogicVersion — are exactly `buildTables` applied to the dumped OpSpecs rows. -/
@@ -470,13 +470,13 @@ theorem built_table_matches : ∀ v, v ≤ logicVersion → cellKeys (buildTable
 theorem built_covers_all_versions : built.length = logicVersion + 1 := by decide
 
 /-- row ids are positions in OpSpecs: a (row id, version) key of a dumped cell pins the whole row -/
-theorem ids_are_positions : opSpecs.map (·.id) = List.range opSpecs.length := by decide
+theorem ids_are_positions : opSpecs.map (·.id) = List.range opSpecs.length := by decide +kernel
 
 def rowsWellFormedB (rows : List Spec) : Bool :=
   rows.all (fun r => decide (r.opcode < 256) && decide (r.sub < 256) && decide (1 ≤ r.version) && decide (r.version ≤ logicVersion))
 
 /-- opcode and sub-opcode are bytes; every row is registered at a version in 1..LogicVersion (none is dead) -/
-theorem rows_well_formed : rowsWellFormedB opSpecs = true := by decide
+theorem rows_well_formed : rowsWellFormedB opSpecs = true := by decide +kernel
 
 def noMixB (rows : List Spec) (op : Nat) : Bool :=
   rows.all (fun r => r.opcode != op || r.sub == 0) || rows.all (fun r => r.opcode != op || r.sub != 0)
@@ -496,7 +496,7 @@ theorem noMixB_sound (rows : List Spec) (op : Nat) (h : noMixB rows op = true) :
     simp [ho] at this
     exact this
 
-theorem gen_no_mix_b : opSpecs.all (fun r => noMixB opSpecs r.opcode) = true := by decide
+theorem gen_no_mix_b : opSpecs.all (fun r => noMixB opSpecs r.opcode) = true := by decide +kernel
 
 /-- no opcode byte of today's table is both a single-byte opcode and a sub-opcode prefix -/
 theorem gen_no_mix : ∀ r ∈ opSpecs, NoMixOn opSpecs r.opcode := by
@@ -535,7 +535,7 @@ def sigStatelessB (groups : List Group) (s : Spec) : Bool :=
   !touchesState s || !allows s.modes modeSig ||
     (s.ungated.isEmpty && fieldsStateless groups s && touchesExplained groups s)
 
-theorem sig_stateless_all : opSpecs.all (sigStatelessB fieldGroups) = true := by decide
+theorem sig_stateless_all : opSpecs.all (sigStatelessB fieldGroups) = true := by decide +kernel
 
 /-- FULL (finite, whole table; classification by AST scan). No row whose implementation reaches ledger / box / inner
     transaction / eval-delta state allows signature mode — except through field immediates, and then every field that
@@ -577,16 +577,16 @@ def groupsClosedB (groups : List Group) (rows : List Spec) : Bool :=
 
 /-- closure of the field-group model over today's table: every group named by an immediate is dumped, field immediates
     sit at `immBase + index`, and slot i of a group describes field i -/
-theorem gen_groups_closed : groupsClosedB fieldGroups opSpecs = true := by decide
+theorem gen_groups_closed : groupsClosedB fieldGroups opSpecs = true := by decide +kernel
 
 theorem gen_field_index : fieldGroups.all (fun g => decide (g.fields.map (·.idx) = List.range g.fields.length)) = true := by
-  decide
+  decide +kernel
 
 /-- fields never precede their op: for every row and every visible field of a group it consults, nothing is claimed
     about `field.version ≤ op.version`; what IS checked is the converse danger — a field gate that could never fire
     because the group is missing — by `gen_groups_closed`. This lemma records that hidden slots carry no version. -/
 theorem gen_hidden_slots : fieldGroups.all (fun g => g.fields.all (fun fr => fr.name != "" || (fr.version == 0 && fr.modes == 0))) = true := by
-  decide
+  decide +kernel
 
 /-! ## Part D — what `pass` means for today's table -/
 
@@ -612,13 +612,13 @@ theorem no_newer_feature (minv mode v : Nat) (rest : List Nat) (pc : Nat) (stk :
 
 -- non-vacuity over today's table: box_create (0xb9) is rejected in signature mode and before version 8, accepted at 8 in
 -- application mode; `global Round` (field 6, version 2, application only)
-example : (opVerdict (buildTables opSpecs) logicVersion 0 8 modeSig 0xb9 none).1 = .wrongmode := by decide
-example : (opVerdict (buildTables opSpecs) logicVersion 0 7 modeApp 0xb9 none).1 = .toonew := by decide
-example : (opVerdict (buildTables opSpecs) logicVersion 0 8 modeApp 0xb9 none).1 = .pass := by decide
-example : stepVerdict (buildTables opSpecs) fieldGroups logicVersion 0 modeSig [2, 0x32, 6] 1 [] = .fieldmode := by decide
-example : stepVerdict (buildTables opSpecs) fieldGroups logicVersion 0 modeSig [1, 0x32, 6] 1 [] = .badfield := by decide
-example : stepVerdict (buildTables opSpecs) fieldGroups logicVersion 2 modeApp [2, 0x32, 6] 1 [] = .pass := by decide
-example : ∃ s ∈ opSpecs, touchesState s = true ∧ allows s.modes modeSig = true := by decide
+example : (opVerdict (buildTables opSpecs) logicVersion 0 8 modeSig 0xb9 none).1 = .wrongmode := by decide +kernel
+example : (opVerdict (buildTables opSpecs) logicVersion 0 7 modeApp 0xb9 none).1 = .toonew := by decide +kernel
+example : (opVerdict (buildTables opSpecs) logicVersion 0 8 modeApp 0xb9 none).1 = .pass := by decide +kernel
+example : stepVerdict (buildTables opSpecs) fieldGroups logicVersion 0 modeSig [2, 0x32, 6] 1 [] = .fieldmode := by decide +kernel
+example : stepVerdict (buildTables opSpecs) fieldGroups logicVersion 0 modeSig [1, 0x32, 6] 1 [] = .badfield := by decide +kernel
+example : stepVerdict (buildTables opSpecs) fieldGroups logicVersion 2 modeApp [2, 0x32, 6] 1 [] = .pass := by decide +kernel
+example : ∃ s ∈ opSpecs, touchesState s = true ∧ allows s.modes modeSig = true := by decide +kernel
 
 end Gen
 
